@@ -134,6 +134,66 @@ def carried(r):
     return m
 
 
+_KEEP = {}
+
+
+def _keeps_own_value(facts, field):
+    """True if, in every MIR store to Plane.<field>, the field's own old value occurs only in a position where it is handed
+    through unchanged: the fallback of `Option::or`, or a plain copy.  Such a store either writes a value that does not
+    depend on the old one or leaves the old one in place - 'the latest value its own frames carried' still holds."""
+    if field in _KEEP:
+        return _KEEP[field]
+    from ..lineexpr import walk
+    from ..mirq import DefUse, expr, field_stores
+
+    cur = {}
+
+    def is_self(e):
+        if not (isinstance(e, tuple) and e and e[0] == "arg" and len(e) > 2 and e[2] and tuple(e[2])[0] == field):
+            return False
+        b = cur.get("b")
+        ty = b.locals[e[1]]["ty"]["s"] if b is not None and isinstance(e[1], int) and e[1] < len(b.locals) else "Plane"
+        return ty.rstrip(">").endswith("::Plane") or ty.endswith("Plane")
+
+    def no_self(e):
+        return not any(is_self(x) for x in walk(e))
+
+    def keep_ok(e):
+        if is_self(e):
+            return tuple(e[2]) == (field,)
+        if isinstance(e, tuple) and e and e[0] == "call" and (e[1] or "").endswith("Option::<T>::or") and len(e[2]) == 2:
+            return no_self(e[2][0]) and (keep_ok(e[2][1]) or no_self(e[2][1]))
+        return no_self(e)
+
+    ok = True
+    n = 0
+    for st in field_stores(facts, "Plane", field):
+        b = st["body"]
+        if "::tests::" in b.name:
+            continue
+        du = DefUse(b)
+        cur["b"] = b
+        n += 1
+        if st["via"] == "calldest":
+            t = st["term"]
+            from ..facts import callee_name
+            e = ("call", callee_name(t), tuple(expr(du, a) for a in t["args"]))
+        else:
+            rv = st["stmt"]["rv"]
+            if rv["k"] == "use":
+                e = expr(du, rv["x"])
+            else:
+                ops = [rv.get(k) for k in ("x", "l", "r") if isinstance(rv.get(k), dict)] + list(rv.get("ops") or [])
+                e = ("rv", rv["k"], tuple(expr(du, o) for o in ops if isinstance(o, dict) and ("copy" in o or "move" in o or "const" in o)))
+                if not no_self(e):
+                    ok = False
+                continue
+        if not keep_ok(e):
+            ok = False
+    _KEEP[field] = ok and n > 0
+    return _KEEP[field]
+
+
 def run(facts, rep, tier):
     rep.explanation = (
         "E2 abstract interpretation with a fully symbolic pre-state row: after the update, a field whose abstract value is "
@@ -211,6 +271,8 @@ def run(facts, rep, tier):
             cpre = {d[1].split(".")[0].split("[")[0] for d in ctl_other_deps(v) if isinstance(d, tuple) and d and d[0] == "pre"}
             # data: only the listed derivations; control: only the gating state (capability report, CPR pairing)
             bad = (pre - DERIVED.get(f, set())) | (cpre - GATING - DERIVED.get(f, set()))
+            if bad == {f} and f not in cpre and _keeps_own_value(facts, f):
+                bad = set()         # `self.f = new.or(self.f)`: the old value flows in only as "left unchanged"
             ok = not bad
             rep.oblige(ok, ("latest", r.ctx["label"], f))
             if not ok:
